@@ -12,14 +12,13 @@ open Kit.CronCal
 
 /-- `z` is a zone whose offset is a whole number of hours (`b k` for the UTC hour block `k`,
 |b| ≤ 26), changes only between hour blocks, by exactly one hour, and at most once in any stretch
-of 1801 hours (75 days); `lookup`'s period bounds are coherent with the offsets nearby. -/
+of 1801 hours (75 days); the offset is constant on each period `lookup` reports. -/
 structure HourZone (z : Zone) (b : Int → Int) : Prop where
   off_eq : ∀ u, offsetAt z u = 3600 * b (u / 3600)
   bound : ∀ k, -26 ≤ b k ∧ b k ≤ 26
   window : ∀ c, ∃ τ ba bb, (bb = ba ∨ bb = ba + 1 ∨ bb = ba - 1) ∧
     ∀ k, c - 900 ≤ k → k ≤ c + 900 → b k = if k < τ then ba else bb
-  look : ∀ u v, u - 93600 ≤ v → v ≤ u + 93600 →
-    (((lookup z u).2.1 ≤ v ∧ v < (lookup z u).2.2) ↔ offsetAt z v = (lookup z u).1)
+  look : ∀ u v, (lookup z u).2.1 ≤ v → v < (lookup z u).2.2 → offsetAt z v = (lookup z u).1
 
 /-- Local hour index of the UTC hour block `k`. -/
 def lam (b : Int → Int) (k : Int) : Int := k + b k
@@ -104,7 +103,7 @@ theorem goDate_hz (y m d h mi s : Int) :
   generalize daysFromCivil (y + (m - 1) / 12) ((m - 1) % 12 + 1) d * 86400 + h * 3600 + mi * 60 + s = L
   have hb := H.bound (L / 3600)
   have ho : (lookup z L).1 = offsetAt z L := rfl
-  have hl := H.look L (L - offsetAt z L) (by rw [H.off_eq]; omega) (by rw [H.off_eq]; omega)
+  have hl := H.look L (L - offsetAt z L)
   by_cases h0 : (lookup z L).1 = 0
   · rw [if_neg (by simpa using h0)]
     rw [ho] at h0
@@ -112,10 +111,9 @@ theorem goDate_hz (y m d h mi s : Int) :
   · rw [if_pos h0]
     rw [ho] at *
     by_cases hin : (lookup z L).2.1 ≤ L - offsetAt z L ∧ L - offsetAt z L < (lookup z L).2.2
-    · have := hl.1 hin
+    · have := hl hin.1 hin.2
       rw [if_neg (by omega), this]
-    · have hne : ¬ offsetAt z (L - offsetAt z L) = offsetAt z L := fun h => hin (hl.2 h)
-      rw [if_pos (by omega)]
+    · rw [if_pos (by omega)]
 
 /-! ### where `time.Date` lands -/
 
